@@ -165,8 +165,9 @@ def graph_check(rows, edits):
 class Check(PropertyCheck):
     id = "C24"
     module = "Props.C24"
-    theorems = ["C24_edit_graph_acyclic", "C24_walk_terminates", "C24_refines_set_fixed_bounded",
-                "C24_refines_set_shipped_bounded_partial", "C24_readd_after_delete",
+    theorems = ["C24_edit_graph_acyclic", "C24_walk_terminates", "C24_current_iff_not_superseded",
+                "C24_refines_set", "C24_refines_set_fixed", "C24_refines_set_shipped_partial",
+                "C24_readd_after_delete", "C24_listing_nodup_fixed_bounded",
                 "C24_dup_listing_refuted", "C24_null_delete_refuted", "C24_same_pair_twice_refuted",
                 "C24_nonvacuous"]
     allowed_axioms = []
@@ -182,6 +183,8 @@ class Check(PropertyCheck):
     rule = ("histories of tag add/update/rm commands (1-3 pairs per command, repeated pairs, bare keys for rm) over "
             "3 entities x 4 keys x 13 JSON values incl. null/1/1.0/true/lists/objects; exhaustive small scope + random "
             "longer ones; a history is non-trivial if it has >= 2 commands; distinct by canonical repr")
+
+    cfg = None          # set by translate(); None if the translator did not recognise the source
 
     # ------------------------------------------------------------------
     def translate(self):
@@ -262,7 +265,7 @@ class Check(PropertyCheck):
             real.close()
 
     def _correspond(self, real):
-        n = 260 if self.tier == "quick" else 5000
+        n = 260 if self.tier == "quick" else 2500
         maxlen = 7 if self.tier == "quick" else 9
         hists = []
         corpus = CORPUS / "C24.jsonl"
@@ -327,10 +330,13 @@ Definition agrees (ops : list op) (log : list nat) (ts : list tree) (cur : list 
   forallb (fun ec => pairs_le (cur_pairs s (fst ec)) (snd ec) && pairs_le (snd ec) (cur_pairs s (fst ec)))
           (combine (seq 0 (length cur)) cur).
 """
-        ok, failing, diags = run_bool_cases("C24", ["Model.Tags", "Gen.C24Gen"],
-                                            "From Coq Require Import Arith.\n" + pre, terms, chunk=60)
+        if self.cfg is None:        # translator failed: compare with the model of the code as shipped
+            reqs, pre = ["Model.Tags"], "Definition gen_cfg : cfg := shipped.\n" + pre
+        else:
+            reqs = ["Model.Tags", "Gen.C24Gen"]
+        ok, failing, diags = run_bool_cases("C24", reqs, "From Coq Require Import Arith.\n" + pre, terms, chunk=60)
         self.ob("correspondence",
-                f"model (under the extracted configuration {self.cfg}) == real backend on {len(terms)} command histories: "
+                f"model (under {'the extracted configuration ' + str(self.cfg) if self.cfg else 'the shipped configuration; extraction failed'}) == real backend on {len(terms)} command histories: "
                 "per-command outcome, whole tag table as content/parent trees with is_current, TagEdit == parent lists, "
                 "get_tags multiset per entity", ok and not failing,
                 "\n".join(diags) + "".join(f"\nmismatch: {json.dumps(descr[i])}" for i in failing[:8]))
@@ -402,11 +408,16 @@ Definition agrees (ops : list op) (log : list nat) (ts : list tree) (cur : list 
         alpha.append(("add", "ent0", [("k", 1), ("k", 1)]))
         alpha.append(("add", "ent1", [("k", 1)]))
         alpha.append(("rm", "ent1", [("k", ANY)]))
-        depth = 2 if self.tier == "quick" else 4
-        for hist in itertools.product(alpha, repeat=depth):
-            yield list(hist)
-        if self.tier == "quick":          # a slice of depth 3: everything that starts with an add
+        if self.tier == "quick":
+            for hist in itertools.product(alpha, repeat=2):
+                yield list(hist)
+            # a slice of depth 3: everything that starts with an add or update
             for hist in itertools.product([a for a in alpha[:8] if a[0] != "rm"], alpha[:12], alpha[:12]):
+                yield list(hist)
+        else:
+            for hist in itertools.product(alpha, repeat=3):
+                yield list(hist)
+            for hist in itertools.product(alpha[:8], repeat=4):
                 yield list(hist)
 
     def oracle(self):
@@ -428,14 +439,13 @@ Definition agrees (ops : list op) (log : list nat) (ts : list tree) (cur : list 
             for h in self.small_scope():
                 hists.append(h)
                 nss += 1
-            for _ in range(300 if self.tier == "quick" else 20000):
+            for _ in range(300 if self.tier == "quick" else 6000):
                 hists.append(self.rand_hist(8 if self.tier == "quick" else 12))
             seen_keys = set()
             for hist in hists:
                 n += 1
-                # fresh entity ids instead of a fresh database: entities are independent
-                emap = {e: f"{e}_{n}" for e in ENTS}
-                for key, what, replay in self.check_history(real, hist, emap):
+                real.reset()
+                for key, what, replay in self.check_history(real, hist):
                     if key not in seen_keys:
                         seen_keys.add(key)
                         self.findings.append(Finding(key, what, replay))
@@ -450,7 +460,7 @@ Definition agrees (ops : list op) (log : list nat) (ts : list tree) (cur : list 
                     f"edit graph acyclic and hash-consistent) on {n} histories; deviations other than the registered ones",
                     not new, "; ".join(f.what for f in new[:5]))
             # the model says which of the three defects the current code has; the real code must agree
-            cfg = getattr(self, "cfg", None)
+            cfg = self.cfg
             if cfg is not None:
                 keys = {f.key for f in self.findings}
                 agree = ((KF_DUP in keys) == (not cfg["skip_current"]) and (KF_NULL in keys) == (not cfg["null_match"])
@@ -552,6 +562,7 @@ Definition agrees (ops : list op) (log : list nat) (ts : list tree) (cur : list 
             real = Real()
             try:
                 hist = parse_hist(r["history"])
+                real.reset()
                 dev = self.check_history(real, hist)
                 for key, what, _ in dev:
                     print("replay:", key, "--", what)
